@@ -102,7 +102,9 @@ def build_cases():
     cases = []
     for state in ("empty", "populated"):
         for sub in subsets(["algo", "checksum", "checksum_algo", "obj_size"]):
-            for variant in ("valid", "wrong_checksum", "wrong_size", "nonnumeric_size", "bad_algo", "upper"):
+            for variant in ("valid", "wrong_checksum", "wrong_size", "nonnumeric_size", "bad_algo", "upper", "empty_values"):
+                if variant == "empty_values" and not sub:
+                    continue
                 if variant == "wrong_checksum" and "checksum" not in sub:
                     continue
                 if variant in ("wrong_size", "nonnumeric_size") and "obj_size" not in sub:
@@ -257,6 +259,10 @@ def run_shard(cases, sub_seed, vidx=0):
                 size_txt = "12x" if variant == "nonnumeric_size" else str(size)
                 kw = dict(additional_algorithm=None, checksum=None, checksum_algorithm=None, expected_object_size=None)
                 argv.append(f"-path={objp}")
+                if variant == "empty_values":
+                    # an option given with an EMPTY value is a value, not an absent option
+                    algo = calgo = checksum = ""
+                    size_txt = ""
                 if "algo" in sub:
                     argv.append(f"-algo={algo}")
                     kw["additional_algorithm"] = algo
@@ -270,7 +276,7 @@ def run_shard(cases, sub_seed, vidx=0):
                     argv.append(f"-obj_size={size_txt}")
                     kw["expected_object_size"] = size
                 o1, txt = run_client(argv)
-                if variant == "nonnumeric_size":
+                if variant == "nonnumeric_size" or (variant == "empty_values" and "obj_size" in sub):
                     # no typed API equivalent exists: the client must fail and leave the store alone
                     o2 = Outcome(False, exc=ValueError("non-numeric size"))
                 else:
@@ -354,7 +360,8 @@ def run_shard(cases, sub_seed, vidx=0):
             wit.update(client=o1.brief(), api=o2.brief(), client_msg=o1.msg, argv=argv[1:])
             if o1.ok != o2.ok:
                 res.violation(dict(shape, symptom="outcome-differs", client=o1.brief(), api=o2.brief()), wit)
-            elif not o1.ok and variant != "nonnumeric_size" and o1.exc_name != o2.exc_name:
+            elif not o1.ok and variant != "nonnumeric_size" and not (variant == "empty_values" and "obj_size" in sub) \
+                    and o1.exc_name != o2.exc_name:
                 res.violation(dict(shape, symptom="exception-class-differs", client=o1.exc_name, api=o2.exc_name), wit)
             a1 = abstract(ra, lay, known, known_meta)
             a2 = abstract(rb, lay, known, known_meta)
